@@ -69,6 +69,7 @@ func constSnippet(i int, pos string) []Stmt {
 			B("==", &Sel{X: &Sel{X: imp("mapmod"), Name: "n"}, Name: "u"}, Undef()),
 			B("==", &Index{X: &Sel{X: &Sel{X: imp("mapmod"), Name: "n"}, Name: "a"}, I: N("0")}, True()),
 			B("+", &Sel{X: imp("immamod"), Name: "who"}, &Sel{X: imp("immbmod"), Name: "who"}),
+			&Sel{X: imp("namedmod"), Name: "region"}, &Sel{X: imp("namedmod"), Name: "n"},
 			imp("bytesmod"), imp("timemod"), imp("charmod"), imp("nanmod"), imp("mapmod")}})}
 	case 21: // iterating a builtin module table (a constant shared by all clones)
 		return []Stmt{Def(v("m"), &Import{Name: "math"}), Def(v("a"), N("0")),
